@@ -201,6 +201,8 @@ func registerIntrinsics(e *Exec) {
 	in["vh:vhSymbolic"] = func(e *Exec, a []Value, _ *ssa.CallCommon) Value { return e.tb.True }
 
 	registerLibStubs(e)
+	registerPValue(e)
+	registerPValueHarness(e)
 }
 
 func (e *Exec) sliceByteAtSafe(s *Slice, j *Term) *Term {
